@@ -213,8 +213,8 @@ def e2e_body(ctx, cfg):
 
 
 LAWS = [
-    given_law("synthetic", synth_cases(), synth_body, {"quick": 400, "thorough": 2000}),
-    given_law("end_to_end", e2e_cases(), e2e_body, {"quick": 30, "thorough": 120}, shards={"quick": 3, "thorough": 16}),
+    given_law("synthetic", synth_cases(), synth_body, {"quick": 400, "thorough": 5000}, shards={"quick": 3, "thorough": 16}),
+    given_law("end_to_end", e2e_cases(), e2e_body, {"quick": 40, "thorough": 300}, shards={"quick": 6, "thorough": 16}),
 ]
 
 
